@@ -285,6 +285,14 @@ class DecoratedLogger(Logger):
     def time(self, message: str) -> 'ContextManager[Logger]':
         return self._copy_logger.time(self._pre_decorator.filter(message))
 
+    def __copy__(self) -> 'DecoratedLogger':
+        #decorating a decorated logger must not redirect the loggers inside the original
+        new = object.__new__(type(self))
+        new.__dict__.update(self.__dict__)
+        new._original_logger = copy(self._original_logger)
+        new._copy_logger     = copy(self._copy_logger)
+        return new
+
     def undecorate(self) -> Logger:
         """Remove the decorator.
 
